@@ -5,5 +5,5 @@ cd /repo && git diff --quiet || { echo "/repo not clean"; exit 9; }
 git -C /repo apply /verif/seeded/$name/patch.diff || exit 9
 cd /verif && ./bin/check $pid --tier $tier > /tmp/seedrun_$name.log 2>&1; code=$?
 git -C /repo checkout -- .
-grep -E "VIOLATION|KNOWN-FINDING|HARNESS|INCONCL|WITNESS|exit=" /tmp/seedrun_$name.log | cut -c1-220 | head -6
+grep -E "VIOLATION|HARNESS|INCONCL|WITNESS|exit=" /tmp/seedrun_$name.log | cut -c1-220 | head -4
 echo "seed=$name property=$pid tier=$tier exit=$code"
